@@ -41,6 +41,7 @@ func HarnessC17Response() {
 	errCfg := vChoice("error-page", 4) // none, valid, missing file, page that itself fails
 	vfsWriteFile("templates/ok.tw", "ok {{ d }}!")
 	vfsWriteFile("templates/calc.tw", c17Page)
+	vfsWriteFile("templates/pct.tw", "HEADMARK {{ 7 % \"3\" }} TAILMARK") // the error message holds a '%' 
 	// the custom error page has a variable of its own; the failed page's data uses the same name with another type
 	vfsWriteFile("templates/err.tw", "{{ t = \"Custom\" }}{{ t }} oops")
 	vfsWriteFile("templates/errbad.tw", "E{{ 1 / 0 }}")
@@ -68,7 +69,9 @@ func HarnessC17Response() {
 	var name string
 	var data map[string]any
 	d := string([]byte{vByte("d")})
-	switch vChoice("page", 4) {
+	switch vChoice("page", 5) {
+	case 4:
+		name, data = "pct", nil
 	case 0:
 		name, data = "ok", map[string]any{"d": d}
 	case 1:
